@@ -1247,6 +1247,15 @@ void reb_integrator_whfast_part2(struct reb_simulation* const r){
             memcpy(p_j,sync_pj,r->N*sizeof(struct reb_particle));
             free(sync_pj);
             ri_whfast->is_synchronized=0;
+            // The centre of mass of the variational particles is not advanced by the drift
+            // operators but by the two half steps in part1 and above. Redo the second one
+            // on the restored coordinates.
+            for (int v=0;v<r->N_var_config;v++){
+                const int index = r->var_config[v].index;
+                p_j[index].x += r->dt/2.*p_j[index].vx;
+                p_j[index].y += r->dt/2.*p_j[index].vy;
+                p_j[index].z += r->dt/2.*p_j[index].vz;
+            }
         }
     }
 }
